@@ -391,4 +391,11 @@ class ScopeFactory(_D):
 
 from .C02 import AsyncScope, variant as _variant  # noqa: E402
 
-CONTRACTS = CONTRACTS + [ScopeFactory(), _variant(AsyncScope, "C08", ("C08-",))]
+from .C02 import TaskGroupExit as _TaskGroupExit, ReEnterAsync as _ReEnterAsync  # noqa: E402
+
+# "an error raised by any disposable's cleanup reaches the caller instead of vanishing": the scope leaves its task group in the
+# `finally` that follows the disposables' exit - whatever that exit raises replaces the cleanup error.  The task-group exit
+# therefore must not raise on its own account (C02-P3: only a cancellation that is not the body's own escapes it).
+CONTRACTS = CONTRACTS + [ScopeFactory(), _variant(AsyncScope, "C08", ("C08-",)),
+                         _variant(_TaskGroupExit, "C08", ("C02-P3:only-a-foreign",)),
+                         _variant(_ReEnterAsync, "C08", ("C08-",))]
